@@ -239,5 +239,6 @@ pub fn def() -> PropDef {
             Space { name: "random", decode: decode_random, plan: |t| Plan::Random(t.n(200_000, 4_000_000)) },
         ],
         differential: false,
+        floors: &[("prefix_cells", 5.0)],
     }
 }
